@@ -17,6 +17,38 @@ class SymBothUD(UnDirectedEdge, DirectedEdge):
     """... undirected first"""
 class SymVert(Vertex): pass
 class SymUni(Universe): pass
+class RevLinksVert(Vertex):
+    """a user vertex class that overrides the public `links` accessor: it presents its links in the opposite order"""
+    @property
+    def links(self):
+        return tuple(reversed(super().links))
+class ViewUni(Universe):
+    """a user universe class that overrides the public `vertices` accessor: a filtered view (the members listed in `hidden` are
+    not part of what this universe presents)"""
+    hidden = ()
+    @property
+    def vertices(self):
+        return [v for v in super().vertices if not any(v is x for x in self.hidden)]
+class NestVert(Vertex):
+    """the searched attribute `tag` is a property whose getter itself runs a search over the graph before answering (a user callback
+    that calls back into the library); the value lives in `_tagv`, a vertex without it has no `tag`"""
+    probe = None
+    @property
+    def tag(self):
+        fn = type(self).probe
+        if fn is not None:
+            fn(None, self, "no-vertex-has-this-attribute", 0)
+        if "_tagv" not in vars(self):
+            raise AttributeError("tag")
+        return vars(self)["_tagv"]
+class KickUni(Universe):
+    """a user universe class overriding add_vertex: admitting a vertex makes it leave the rival universe (a callback into the library
+    while the library is still working on that vertex)"""
+    rival = None
+    def add_vertex(self, vert):
+        super().add_vertex(vert)
+        if self.rival is not None and self.rival in vert.universes:
+            vert.remove_from_universe(self.rival)
 class SymFalsyVert(Vertex):
     def __bool__(self):
         return False
